@@ -20,4 +20,42 @@ def g_exit(repo):
     return g
 
 
-GROUPS = {'exit': g_exit}
+MODTYPES = ['UnResolved', 'QueryResult', 'ComparisonClauseCheck', 'InComparisonCheck', 'ValueCheck', 'UnaryValueCheck',
+            'MissingValueCheck', 'ClauseCheck', 'TypeBlockCheck', 'BlockCheck', 'NamedStatus', 'RecordType']
+EXPRTYPES = ['FileLocation', 'LetValue', 'LetExpr', 'QueryPart', 'AccessQuery', 'AccessClause', 'GuardAccessClause',
+             'MapKeyFilterClause', 'GuardNamedRuleClause', 'BlockGuardClause', 'ParameterizedNamedRuleClause', 'FunctionExpr',
+             'GuardClause', 'WhenGuardClause', 'Block', 'TypeBlock', 'RuleClause', 'Rule', 'ParameterizedRule', 'RulesFile']
+
+
+def eval_common(g):
+    g.raw('prelude_common.rs')
+    g.raw('prelude_eval.rs')
+    g.type(RULES + 'mod.rs', 'Status')
+    g.type(RULES + 'values.rs', 'CmpOperator')
+    g.type(RULES + 'eval_context.rs', 'FunctionName')
+    for t in MODTYPES:
+        g.type(RULES + 'mod.rs', t, derive=None)
+    g.impl(RULES + 'mod.rs', r"Default for NamedStatus")
+    for a in ('Disjunctions', 'Conjunctions', 'WhenConditions'):
+        g.alias(RULES + 'exprs.rs', a)
+    for t in EXPRTYPES:
+        sub = [('indexmap::IndexSet<String>', 'IndexSetString')] if t == 'ParameterizedRule' else None
+        g.type(RULES + 'exprs.rs', t, derive=None, extra_subst=sub)
+    g.raw('spec_eval.rs')
+    g.trait('EvalContext', [(RULES + 'mod.rs', 'RecordTracer'), (RULES + 'mod.rs', 'EvalContext')], 'trait_EvalContext.spec')
+
+
+def g_eval(repo):
+    g = GroupBuild('eval', repo)
+    eval_common(g)
+    E = RULES + 'eval.rs'
+    g.fn(None, E, 'eval_conjunction_clauses', spec='eval_conjunction_clauses.spec', stub=True)
+    g.fn(None, E, 'eval_general_block_clause', spec='eval_general_block_clause.spec', stub=True)
+    g.fn(None, E, 'eval_when_clause', spec='clause_stub.spec', stub=True)
+    g.fn(None, E, 'eval_rule_clause', spec='clause_stub.spec', stub=True)
+    g.fn('U-named', E, 'eval_guard_named_clause', spec='eval_guard_named_clause.spec', props=['C01', 'C02', 'C03', 'C08'])
+    g.fn('U-rule', E, 'eval_rule', spec='eval_rule.spec', props=['C01', 'C02', 'C04', 'C08'])
+    return g
+
+
+GROUPS = {'exit': g_exit, 'eval': g_eval}
